@@ -64,6 +64,9 @@ GInit(A) == [bal     |-> [a \in A |-> 0],
 
 Accts(g) == DOMAIN g.bal
 
+\* an observed allowance agrees with the ghost value v: equal, or lapsed to zero (the property bounds an
+\* allowance from above only: an implementation may let it expire earlier than its live_until_ledger)
+AllowSame(x, v) == x = v \/ x = 0
 \* what allowance(o, s) is worth at ledger t
 AllowAt(g, o, s, t) == IF g.allow[o][s].until >= t THEN g.allow[o][s].amt ELSE 0
 
@@ -221,7 +224,7 @@ Cons(m, g, ev) ==
     [] m = "C01_rwa_fail" ->
          /\ obs.supply = g.supply
          /\ \A a \in A : obs.bal[a] = g.bal[a] /\ obs.frozen[a] = g.frozen[a]
-         /\ \A a, b \in A : obs.allow[a][b] = AllowAt(g, a, b, ev.now)
+         /\ \A a, b \in A : AllowSame(obs.allow[a][b], AllowAt(g, a, b, ev.now))
     \* a balance decreases only in a supervisory operation, or in the holder's / spender's own call
     [] m = "C02_rwa_debit" ->
          /\ ok
@@ -231,7 +234,7 @@ Cons(m, g, ev) ==
                /\ MovementAuthorized(g, ev)
     \* allowances change only by an approve the owner authorized, or by a spend
     [] m = "C02_rwa_allow" ->
-         /\ \A a, b \in A : obs.allow[a][b] = AllowAt(n, a, b, ev.now)
+         /\ \A a, b \in A : AllowSame(obs.allow[a][b], AllowAt(n, a, b, ev.now))
          /\ (ok /\ o.op = "approve" => o.from \in o.auth)
 
 Holds(m, g, ev) == Ante(m, g, ev) => Cons(m, g, ev)
